@@ -149,7 +149,7 @@ struct Trace {
       off += w;
     }
     events++;
-    if (samples.size() < 4 && line.size() < 400 && (events % 7 == 3)) samples.push_back(line);
+    if (samples.size() < 4 && line.size() < 400 && (events % 7 == 3) && line.find('\n') == std::string::npos) samples.push_back(line);
   }
   void emit(const J& j) { emit(j.done()); }
   void reset_marker() {
